@@ -11,7 +11,7 @@ RULE = ("cases = every 1-D array of length 1..Lmax over a 2-4 letter alphabet pe
 ASSUMPTIONS = ["oracle: the dense array itself (element-wise ==, NaN matches NaN, dtype, length/size/shape)",
                "canonical form is read through the public starts / ends / values / len only",
                "'no equal adjacent values' is demanded exactly for the producers the statement lists: encoding, stepped slicing, ufuncs on two run-length operands"]
-REQUIRED_FEATURES = ["input_not_contiguous", "producer_binary_nan", "single_run", "all_different", "nan_values", "signed_zero", "producer_slice", "producer_step", "producer_binary", "producer_concat",
+REQUIRED_FEATURES = ["input_not_contiguous", "producer_binary_nan", "producer_binary_of_derived_operands", "single_run", "all_different", "nan_values", "signed_zero", "producer_slice", "producer_step", "producer_binary", "producer_concat",
                      "producer_mask", "result_needed_rejoin", "producer_step_of_unjoined_operand"]
 BOUNDS = {"quick": "all arrays L<=6 (bool, int8, int64, uint8, uint64, float16/32/64; 3-letter alphabets, 4 for float32/64 at L<=5); producers over all "
                    "int64 arrays L<=4: every in-range slice with steps +-1..3, add/maximum/equal of every pair (L<=3), scalar ops, concatenate pairs, run-length masks; inputs as reversed / strided / matrix-column views; NaN / inf binary producers; stepped slices of an unjoined operand",
@@ -149,6 +149,14 @@ def _check_prod(case, acc):
     for name, f, e in (("scalar-add", lambda: mk() + 1, a + 1), ("scalar-radd", lambda: 1 + mk(), 1 + a), ("unary-neg", lambda: -mk(), -a),
                        ("scalar-eq", lambda: mk() == 1, a == 1)):
         _prod_check(acc, name, f, e, joined=False)
+    # both operands derived from ONE encoded array by scalar / unary arithmetic (they may share its boundary array object): joined all the same
+    acc.feature("producer_binary_of_derived_operands")
+    for name, fd, e in (("max(x//2, x//3)", lambda x: np.maximum(x // 2, x // 3), np.maximum(a // 2, a // 3)),
+                        ("(x>0)|(x<2)", lambda x: (x > 0) | (x < 2), (a > 0) | (a < 2)),
+                        ("x==x", lambda x: x == x, a == a),
+                        ("(x*2)-(x+x)", lambda x: (x * 2) - (x + x), (a * 2) - (a + a)),
+                        ("(x+1)*(x//2)", lambda x: (x + 1) * (x // 2), (a + 1) * (a // 2))):
+        _prod_check(acc, "binary-of-derived:" + name, lambda: fd(mk()), e, joined=True)
     if L <= 3:
         for t2 in itertools.product(range(3), repeat=L):
             b = np.array(t2, dtype=np.int64)
